@@ -73,6 +73,9 @@ def run(pid, tier, seed, njobs=None):
     cov["states"] = cov.get("states", 0) + sc["tlc_states"]
     cov["transitions"] = cov.get("transitions", 0) + sc["tlc_states"]
     cov["traces_validated_against_impl"] = cov.get("traces_validated_against_impl", 0) + sc["accepted"]
+    # bounded-exhaustive exploration of tiny programs on the real crate, every execution replayed through Flurry.tla
+    import explore
+    cov["bounded_exhaustive_exploration"] = explore.leg(pid, tier, seed, verdict)
     lib.add_spec_coverage(cov, pid, tier)
     rc = verdict.finish()
     lib.write_evidence(pid, tier, seed, "model_checking", cov, time.time() - t0, len(verdict.violations),
